@@ -629,7 +629,46 @@ def run_big(chunk, R):
         R.extend(vs)
 
 
+def check_optimized(case):
+    """The explicit-argument box once more in an interpreter started with -O /
+    -OO (assert statements and `if __debug__:` blocks are compiled away): valid
+    arguments are applied as given, invalid ones are rejected there too."""
+    import json
+    import subprocess
+    from engine.common import VERIF
+    env = dict(os.environ)
+    env['VERIF_REPO_PATH'] = os.environ.get('VERIF_REPO', '/repo')
+    env.pop('PYTHONPATH', None)
+    env.pop('PYTHONOPTIMIZE', None)
+    p = subprocess.run([sys.executable, case['opt'], os.path.join(VERIF, 'engine', 'c09_optimized.py')],
+                       stdout=subprocess.PIPE, stderr=subprocess.PIPE, env=env, timeout=600)
+    if p.returncode != 0:
+        raise RuntimeError('c09_optimized failed: %s' % p.stderr.decode()[-1500:])
+    res = json.loads(p.stdout.decode())
+    want = {'-O': 1, '-OO': 2}[case['opt']]
+    if res['optimize'] != want:
+        raise RuntimeError('the interpreter did not run with %s' % case['opt'])
+    out = []
+    for (sym, kind, fl, pm, cp) in res['problems'][:6]:
+        out.append({'key': 'Shuffle:python%s:%s:%s' % (case['opt'], sym, kind),
+                    'what': 'under python %s: %s for flips=%r variables=%r clauses=%r (%d problems in %d calls)'
+                            % (case['opt'], sym, fl, pm, cp, res['nproblems'], res['tried']),
+                    'case': dict(case)})
+    return out, res['tried']
+
+
+def run_optimized(chunk, R):
+    for case in chunk:
+        vs, tried = check_optimized(case)
+        R.stats['executions'] += tried
+        R.stats['calls_in_an_optimized_interpreter'] += tried
+        R.case(sample=case, nontrivial=True, n=tried)
+        R.extend(vs)
+
+
 def replay(case):
+    if case.get('part') == 'optimized':
+        return check_optimized(case)[0]
     if case.get('part') == 'big':
         return check_big(case)
     if 'choices' in case:
@@ -769,6 +808,8 @@ def shards(tier, seed):
                  'seed': seed + 11, 'align': True})
     for i, ch in enumerate(scope.stripe(bigs, 4)):
         out.append(('big%d' % i, 'run_big', ch))
+    out.append(('optimized', 'run_optimized', [{'part': 'optimized', 'opt': '-O'},
+                                                {'part': 'optimized', 'opt': '-OO'}]))
     rnd.sort(key=lambda c: -weight(c))
     k = 48
     for i in range(k):
